@@ -76,6 +76,18 @@ decltype(auto) elem_form(const V &v, const Act &a, std::index_sequence<I...> seq
 }
 template <class V> decltype(auto) elem(const V &v, const Act &a) { return elem_form(v, a, std::make_index_sequence<V::rank()>{}); }
 
+// a read through the shared const mdarray (C19_const_mdarray_cell): a(i...) is container()[mapping()(i...)], the same
+// cell the view returned by to_mdspan() designates; the container was filled with 5000 + offset
+template <class Arr, class M, size_t... I>
+bool arr_read_ok(const Arr &arr, const M &m, const Act &a, std::index_sequence<I...> seq) {
+  using T = typename M::index_type;
+  if (a.idx.size() != sizeof...(I)) return true;
+  const long long o = (long long)to_i128(m(static_cast<T>(a.idx[I])...));
+  const int &r = md_at(arr, a.idx, seq);
+  const auto v = arr.to_mdspan();
+  return r == (int)(5000 + o) && &r == arr.container().data() + o && &md_at(v, a.idx, seq) == &r;
+}
+
 struct Gate {
   std::atomic<int> ready{0}; std::atomic<bool> go{false};
   void arrive_and_wait() { ready.fetch_add(1); while (!go.load(std::memory_order_acquire)) std::this_thread::yield(); }
